@@ -8,11 +8,13 @@ request: walk <cfg> <paths> <skip> <regex> <glob> <req> <ext> <nroots> { <tree> 
   tree   preorder nodes path:kind:size:gi ;  kind d|r|l|s ;  gi  n | g<pat,…> ;  pat <dirOnly><neg><hexname>
   faults of=<paths,>|sf=<paths,>|ff=<paths,>|rf=<path#k,>
 reply : err= vis= calls=<e@path@size;…> pkgs=<id@e@path;…> st=<e=status,…> hyp=<0|1> spec=<calls owed, walk order>
+        … limithyp=<0|1> specvisits=<visitsScan: handleFile calls of the scan run to the end> (theorem C10_inodes_exact)
 -/
 import Scalibr.Base.Wire
 import Scalibr.Model.Gitignore
 import Scalibr.Model.Scan
 import Scalibr.Spec.Walk
+import Scalibr.Spec.WalkCount
 import Scalibr.Proofs.WalkTop
 open Scalibr Scalibr.Walk Scalibr.Wire
 
@@ -194,7 +196,10 @@ def handle (line : String) : String :=
         s!"specpkgs={joinWith ";" ((isort (pkgLt naming) (pkgsOfCalls c spec)).map showPkg)} " ++
         s!"fatalhyp={boolStr (c.maxInodes = 0 && c.errorOnFSErrors && !c.cancelBefore && c.cancelAt.isNone && ext.all (fun x => !x.2.panics))} " ++
         s!"specfatal={boolStr (traversalFaultScan c roots)} " ++
-        s!"specst={joinWith "," ((isort (statusLt naming) (roots.flatMap fun (r, f) => (List.range c.nExt).map fun e => (e, statusSpec c f r e))).map fun (e, st) => s!"{e}={showStatus st}")}"
+        s!"specst={joinWith "," ((isort (statusLt naming) (roots.flatMap fun (r, f) => (List.range c.nExt).map fun e => (e, statusSpec c f r e))).map fun (e, st) => s!"{e}={showStatus st}")} " ++
+        -- hypothesis LimitCfg and right-hand side of theorem C10_inodes_exact
+        s!"limithyp={boolStr (decide (c.maxInodes > 0) && !c.errorOnFSErrors && !c.cancelBefore && c.cancelAt.isNone && ext.all (fun x => !x.2.panics))} " ++
+        s!"specvisits={visitsScan c roots}"
       | none => "bad-op"
     | _, _, _, _, _, _, _ => "bad-op"
   | _ => "bad-op"
